@@ -37,7 +37,9 @@ RULE = ("one case = (circuit word, pre-processing, measurement list, labels, bro
 
 METHODS = ["backprop", "parameter-shift", "ps-broadcast", "adjoint", "hadamard", "reversed-hadamard", "direct-hadamard",
            "reversed-direct-hadamard", "finite-diff", "fd-center2", "spsa", "spsa-center"]
-TOL = {"finite-diff": 5e-6, "fd-center2": 1e-6, "spsa": 1e-6, "spsa-center": 1e-6}
+# gradient transforms applied to the QNode itself (classical Jacobian contracted by the transform, not by the ML framework)
+TF_METHODS = ["tf-parameter-shift", "tf-finite-diff"]
+TOL = {"finite-diff": 5e-6, "fd-center2": 1e-6, "spsa": 1e-6, "spsa-center": 1e-6, "tf-finite-diff": 5e-6}
 
 # documented rejections: (exception type name, message fragment)
 REJECT = [
@@ -71,6 +73,15 @@ def jacobian(spec, cfg, gen=None):
     import pennylane as qp
 
     iface, method = cfg["iface"], cfg["method"]
+    if method.startswith("tf-"):
+        from pennylane import numpy as anp
+
+        tf = {"tf-parameter-shift": qp.gradients.param_shift, "tf-finite-diff": qp.gradients.finite_diff}[method]
+        qn = XD.make_qnode(spec, qp.device("default.qubit"), "autograd", "parameter-shift")
+        z = XD.z0(spec)
+        res = tf(qn)(anp.array(z, requires_grad=True))
+        res = res if isinstance(res, tuple) and len(XD.measurements(spec["meas"], [0, 1])) > 1 else (res,)
+        return np.concatenate([np.asarray(np.stack(r) if isinstance(r, tuple) else r, dtype=float).reshape(-1, len(z)) for r in res])
     diff_method, gkw = method_args(method, gen)
     kw = {}
     if cfg.get("goe", "best") != "best":
@@ -279,7 +290,7 @@ def run(ctx):
     q = ctx.quick
     circs = circuits(ctx)
     # (1) every circuit x every autograd method (default grad_on_execution / device_vjp)
-    specs = [{"c": c, "cfg": {"iface": "autograd", "method": m}} for c in circs for m in METHODS]
+    specs = [{"c": c, "cfg": {"iface": "autograd", "method": m}} for c in circs for m in METHODS + TF_METHODS]
     ctx.enumerate(specs, axis="autograd-all-methods", chunk=24)
     # (2) full configuration product on the fixed circuit subset
     specs = []
@@ -302,7 +313,7 @@ def run(ctx):
         specs += [{"c": c, "cfg": {"iface": "jax-jit", "method": m}} for c in fam[::6] for m in ("backprop", "parameter-shift", "adjoint")]
     ctx.enumerate(specs, axis="interfaces", chunk=6)
     ctx.coverage["alphabet"] = {"gates_len1": A1, "gates_len2": A2_QUICK if q else A1[:-1] + A_FREE, "gates_len3": [] if q else A3,
-                                "pre_processing": SHARES, "measurements": MEAS, "labels": XD.LABS, "methods": METHODS,
+                                "pre_processing": SHARES, "measurements": MEAS, "labels": XD.LABS, "methods": METHODS + TF_METHODS,
                                 "interfaces": ["autograd", "jax", "jax-jit", "torch"], "grad_on_execution": ["best", True, False],
                                 "device_vjp": [False, True], "broadcast_batch": 3}
     ctx.coverage["bound"] = {"word_len": 2 if q else 3, "circuits": len(circs), "full_product_circuits": 3 if q else 5}
